@@ -235,6 +235,43 @@ def drive (cfg : Cfg) (w : World) (t starter : Nat) (fuel : Nat) : World × Outc
           (w1.absorb x1,
            if !x1.stack.isEmpty then .stuck else if bad || x1.raised then .failed else .ok)
 
+/-- the graph surgery before anything runs: cut `run`/`accumulate_and_run`/`ran` of the closure
+(remembering the pairs), chain the execution order; unless the target is alone: (repair) cut the
+remaining output signals of the closure, cut the target's own run inputs.
+Returns the rewired graph and the remembered pairs. -/
+def prepare (cfg : Cfg) (g : G) (t : Nat) (order chain : List Nat) : G × List (Nat × Nat) :=
+  let cut := cutRec g (cutChans order)
+  let g2 := wire cut.1 chain
+  if chain.headD t = t then (g2, cut.2)
+  else
+    let extra := if cfg.cutAllOutputs then cutRec g2 (otherOutChans order) else (g2, [])
+    (disconnectRun extra.1 t, cut.2 ++ extra.2)
+
+/-- the `finally` block on the graph: `disconnect_run` on every closure node, re-connect the pairs -/
+def restoreG (g : G) (order : List Nat) (pairs : List (Nat × Nat)) : G :=
+  reconnect (order.foldl disconnectRun g) pairs
+
+/-- the `else` branch of the `try` block: the parent's starting nodes (and a workflow's
+`automate_execution`) are overridden, the starter / the parent runs, the workflow hack is reverted
+(pinned: only when no exception came out) -/
+def runUpstream (cfg : Cfg) (w : World) (t starter fuel : Nat) : World × Outcome :=
+  match w.parent t with
+  | none => drive cfg w t starter fuel
+  | some p =>
+    let wb := { w with starting := updF w.starting p [starter],
+                       automate := if w.isWf p then updF w.automate p false else w.automate }
+    let r := drive cfg wb t starter fuel
+    if w.isWf p && (cfg.automateInFinally || r.2 = .ok) then
+      ({ r.1 with automate := updF r.1.automate p (w.automate p) }, r.2)
+    else r
+
+/-- the `finally` block: labels back, graph restored, the parent's starting nodes back -/
+def finish (w0 w3 : World) (t : Nat) (order : List Nat) (pairs : List (Nat × Nat)) : World :=
+  let w4 := { w3 with label := unlabel w0.label w3.label order, g := restoreG w3.g order pairs }
+  match w0.parent t with
+  | some p => { w4 with starting := updF w4.starting p (w0.starting p) }
+  | none => w4
+
 /-- `run_data_tree` without the recursion into the parent: everything between the closure
 computation and the end of the `finally` block -/
 def upstream (cfg : Cfg) (w : World) (t : Nat) (order chain : List Nat) (fuel : Nat) :
@@ -244,43 +281,18 @@ def upstream (cfg : Cfg) (w : World) (t : Nat) (order chain : List Nat) (fuel : 
   | some cl =>
     if cl.any w.hasExec then (w, .execRefused)
     else if !validOrder cl order then (w, .badObs)
-    else
+    else if !order.all (fun i => w.parent i = w.parent t) then
+      -- `nodes_to_data_digraph` refuses; the wiring helper re-connects what it broke,
+      -- `run_data_tree` puts the labels back
       let cut := cutRec w.g (cutChans order)
-      if !order.all (fun i => w.parent i = w.parent t) then
-        -- `nodes_to_data_digraph` refuses; the wiring helper re-connects what it broke,
-        -- `run_data_tree` puts the labels back
-        ({ w with g := reconnect cut.1 cut.2 }, .mixedScope)
-      else if !validChain w cl chain then (w, .badObs)
-      else
-        let g2 := wire cut.1 chain
-        let starter := chain.headD t
-        let savedStart := match w.parent t with | some p => w.starting p | none => []
-        let w2 := { w with g := g2, label := relabel w.label order }
-        -- the `try` block
-        let (w3, pairs, out) :=
-          if starter = t then (w2, cut.2, Outcome.ok)
-          else
-            let extra := if cfg.cutAllOutputs then cutRec w2.g (otherOutChans order) else (w2.g, [])
-            let w2a := { w2 with g := disconnectRun extra.1 t }
-            let w2b := match w.parent t with
-              | some p => { w2a with starting := updF w2a.starting p [starter],
-                                     automate := if w.isWf p then updF w2a.automate p false else w2a.automate }
-              | none => w2a
-            let r := drive cfg w2b t starter fuel
-            let w2c := match w.parent t with
-              | some p =>
-                if w.isWf p && (cfg.automateInFinally || r.2 = .ok) then
-                  { r.1 with automate := updF r.1.automate p (w.automate p) }
-                else r.1
-              | none => r.1
-            (w2c, cut.2 ++ extra.2, r.2)
-        -- the `finally` block
-        let g4 := order.foldl disconnectRun w3.g
-        let w4 := { w3 with label := unlabel w.label w3.label order, g := reconnect g4 pairs }
-        let w5 := match w.parent t with
-          | some p => { w4 with starting := updF w4.starting p savedStart }
-          | none => w4
-        (w5, out)
+      ({ w with g := reconnect cut.1 cut.2 }, .mixedScope)
+    else if !validChain w cl chain then (w, .badObs)
+    else
+      let starter := chain.headD t
+      let prep := prepare cfg w.g t order chain
+      let w2 := { w with g := prep.1, label := relabel w.label order }
+      let r := if starter = t then (w2, Outcome.ok) else runUpstream cfg w2 t starter fuel
+      (finish w r.1 t order prep.2, r.2)
 
 /-- `run_data_tree(run_parent_trees_too)`: the targets from the root-most ancestor down to the
 node itself, each level completed (including its `finally`) before the next begins -/
